@@ -28,6 +28,10 @@ BROKEN = {
     'seed': r'(^|[^a-z])seed',
     'serpent': r'serpent',
 }
+# RFC 5656 6.1 / 10.1: curves without a short name go by the base64 MD5 digest of their object identifier
+CURVE_DIGEST_OID = {'4MHB+NBt3AlaSRQ7MnB4cg==': '1.3.132.0.1', '5pPrSUQtIaTjUSt5VZNBjg==': '1.2.840.10045.3.1.1', '9UzNcgwTlEnSCECZa7V1mw==': '1.2.840.10045.3.1.7', 'D3FefCjYoJ/kfXgAyLddYA==': '1.3.132.0.37',
+                    'h/SsxnLCtRBh7I9ATyeB3A==': '1.3.132.0.35', 'm/FtSAmrV4j/Wy6RVUaK7A==': '1.3.132.0.36', 'mNVwCXAoS1HGmHpLvBC94w==': '1.3.132.0.38', 'qCbG5Cn/jjsZ7nBeR7EnOA==': '1.3.132.0.27',
+                    'qcFQaMAMGhTziMT0z+Tuzw==': '1.3.132.0.34', 'VqBg4QRPjxx1EXZdV0GdWQ==': '1.3.132.0.33', 'wiRIU8TKjMZ418sMqlqtvQ==': '1.3.132.0.16', 'zD/b3hu/71952ArpUG4OjQ==': '1.3.132.0.26'}
 CAT_OF_FIELD = {'host_keys': 'key', 'optional_host_keys': 'key', 'kex': 'kex', 'ciphers': 'enc', 'macs': 'mac'}
 
 
@@ -45,6 +49,10 @@ def eval_case(case):
         e = dbs[case['table']][case['cat']][case['name']]
         name = case['name']
         hits = [p for p, rx in BROKEN.items() if re.search(rx, name)]
+        for dg, oid in CURVE_DIGEST_OID.items():
+            # the same curve under its digest name: branded wherever the table brands it under its object identifier
+            if name.endswith('-' + dg) and any(n2.endswith('-' + oid) and len(e2) > 1 and len(e2[1]) > 0 for n2, e2 in dbs[case['table']][case['cat']].items()):
+                hits.append('curve-digest-of-' + oid)
         nf = len(e[1]) if len(e) > 1 else 0
         for p in hits:
             if nf == 0:
